@@ -18,6 +18,9 @@ pub enum Sel {
     Valid(u8),
     /// What a real front-end passes: the preselected index of the list just shown.
     Presel,
+    /// Counted from the end of the list just shown: `len - 1 - k` (0 when there is no list
+    /// or it is shorter); always a valid index of that list.
+    Top(u8),
 }
 
 #[derive(Clone, Copy, PartialEq, Eq, Debug, Serialize, Deserialize)]
